@@ -130,7 +130,9 @@ class AddressMixin:
 
     @staticmethod
     def quote_sheet(sheet):
-        if ' ' in sheet or '!' in sheet:
+        # anything but letters, digits, '_' and '.' needs quotes to be
+        # read as a sheet name inside a formula (It's, a-b, P&L, x,y ...)
+        if not all(ch.isalnum() or ch in '_.' for ch in sheet):
             sheet = quote_sheetname(sheet)
         return sheet
 
